@@ -373,4 +373,135 @@ example :
       [keepEv { id := 2, size := 10, metric := 2 }, keepEv { id := 0, size := 50, metric := 1, noSample := true },
        keepEv { id := 1, size := 50, metric := 1, noSample := true }] := by decide
 
+/-! ## 6. the agent around the sampler: (*Shard).sampleBucket (agent_shard_send.go) -/
+
+/-- agent_no_sample_kept — end to end on the agent. `sampleBucket` sends every row whose own metric is marked
+    NoSampleAgent without asking the sampler (`bypass`, factor = the row's initial SF = 1, whatever the component and
+    DisableNoSampleAgent say); every other row goes through Add*;Run, where — in agent mode, unless disabled — rows
+    ACCOUNTED to a NoSampleAgent metric (ingestion statuses of such a metric) are kept with factor 1 as well
+    (`no_sample_agent_kept`). The model `agentBucket` is tied to the real `sampleBucket` by the agent cases of the
+    harness (real Shard, real SourceBucket3 rows). -/
+theorem agent_no_sample_kept (cfg : Cfg) (rows : List ARow) (budget : Int) (ds : List Nat) :
+    (∀ r ∈ rows, r.bypass = true → keepEv r.item ∈ evs (agentBucket cfg rows budget ds)) ∧
+    (cfg.agent = true → cfg.disableNoSample = false →
+      FlagConsistent ((rows.filter (fun r => !r.bypass)).map (·.item)) →
+      ∀ r ∈ rows, r.bypass = false → 1 ≤ r.item.size → r.item.noSample = true →
+        keepEv (prep cfg r.item) ∈ evs (agentBucket cfg rows budget ds)) := by
+  constructor
+  · intro r hr hb
+    simp only [agentBucket, evs_append, evs_map_ev, List.mem_append, List.mem_map, List.mem_filter]
+    exact Or.inl ⟨r, ⟨hr, hb⟩, rfl⟩
+  · intro ha hdis hcons r hr hb hsz hns
+    simp only [agentBucket, evs_append, List.mem_append]
+    right
+    apply no_sample_agent_kept cfg ha hdis _ budget ds hcons r.item _ hsz hns
+    simp only [List.mem_map, List.mem_filter]
+    exact ⟨r, ⟨hr, by simp [hb]⟩, rfl⟩
+
+/-- non-vacuity: a bypassed row, an ingestion-status-like row accounted to the flagged metric 1 and an ordinary
+    over-budget metric 2; agent mode -/
+example :
+    let cfg : Cfg := { agent := true }
+    let rows : List ARow := [⟨{ id := 0, size := 50, metric := 1, noSample := true }, true⟩,
+                             ⟨{ id := 1, size := 40, metric := 1, noSample := true }, false⟩,
+                             ⟨{ id := 2, size := 60, metric := 2, rank := 1 }, false⟩, ⟨{ id := 3, size := 60, metric := 2, rank := 2 }, false⟩]
+    (evs (agentBucket cfg rows 30 [0, 9007199254740991])).map (fun e => (e.id, e.kept, e.num, e.den)) =
+      [(0, true, 1, 1), (1, true, 1, 1), (2, true, 240, 30), (3, false, 240, 30)] := by decide
+
+/-! ## 7. the sizes handed to `Add` are never below 1 -/
+
+theorem keyTLSize_ge (tagsNZ stagLens : List Nat) (ts : Bool) : 12 ≤ keyTLSize tagsNZ stagLens ts := by
+  unfold keyTLSize; omega
+
+theorem valueTLSize_ge (v : ValDesc) : 8 ≤ valueTLSize v := by
+  unfold valueTLSize; omega
+
+/-- agent_row_size_ge_20: the size `sampleBucket` hands to `Add` (`Key.TLSizeEstimate + MultiItem.TLSizeEstimate`, models
+    tied to the real functions by the size cases of the harness) is at least 20 for every key and every row content. -/
+theorem agent_row_size_ge_20 (tagsNZ stagLens : List Nat) (ts : Bool) (tail : ValDesc) (tops : List (Nat × ValDesc)) :
+    20 ≤ keyTLSize tagsNZ stagLens ts + itemTLSize tail tops := by
+  have h1 := keyTLSize_ge tagsNZ stagLens ts
+  have h2 := valueTLSize_ge tail
+  unfold itemTLSize; omega
+
+/-- aggregator_row_size_ge_72: the size `rowDataMarshalAppendPositions` hands to `Add` (`RowBinarySizeEstimate`) -/
+theorem aggregator_row_size_ge_72 (stagLens : List Nat) (tail : ValDesc) (tops : List (Nat × ValDesc)) :
+    72 ≤ itemRowSize stagLens tail tops := by
+  unfold itemRowSize; omega
+
+theorem sampleRows_notMax (cfg : Cfg) (g : Group) (ds : List Nat) : ∀ e ∈ evs (sampleRows cfg g ds).1, e.isMax = false := by
+  have hk : ∀ l, ∀ e ∈ evs (keepAll l), e.isMax = false := by
+    intro l e he
+    simp only [keepAll, evs_map_ev, List.mem_map] at he
+    obtain ⟨it, _, rfl⟩ := he; rfl
+  have hsel : ∀ num den l ds, ∀ e ∈ evs (selectRand num den l ds).1, e.isMax = false := by
+    intro num den l
+    induction l with
+    | nil => intro ds e he; simp [selectRand] at he
+    | cons it r ih =>
+      intro ds e he
+      cases ds with
+      | nil =>
+        simp only [selectRand, evs_err, evs_ev, List.mem_cons] at he
+        rcases he with rfl | he
+        · rfl
+        · exact ih [] e he
+      | cons k ds =>
+        simp only [selectRand, evs_ev, List.mem_cons] at he
+        rcases he with rfl | he
+        · rfl
+        · exact ih ds e he
+  have hpart : ∀ num den l ds, ∀ e ∈ evs (selectPart cfg num den l ds).1, e.isMax = false := by
+    intro num den l ds e he
+    unfold selectPart at he
+    split at he
+    · simp only [evs_append, evs_map_ev, List.mem_append, List.mem_map] at he
+      rcases he with ⟨it, _, rfl⟩ | ⟨it, _, rfl⟩ <;> rfl
+    · split at he
+      · simp only [evs_map_ev, List.mem_map] at he
+        obtain ⟨it, _, rfl⟩ := he; rfl
+      · exact hsel _ _ _ _ e he
+  unfold sampleRows
+  split
+  · simp
+  · split
+    · exact hk _
+    · split
+      · exact hk _
+      · split
+        · intro e he
+          simp only [evs_append, List.mem_append] at he
+          rcases he with he | he
+          · exact hk _ e he
+          · exact hpart _ _ _ _ e he
+        · exact hpart _ _ _ _
+
+/-- add_discard_unreachable: when every row's size is at least 1 — as it is for every row `sampleBucket`
+    (agent_row_size_ge_20) and `rowDataMarshalAppendPositions` (aggregator_row_size_ge_72) hand in — `Add` rejects
+    nothing and no decision carries the MaxFloat32 factor: the one exception of `kept_factor_is_inverse_probability`
+    (`Shape`'s first case) does not occur. (calcHostMetricBudgets can reach the branch: an agent may report original
+    size 0 for a metric; that row simply gets no budget — quota mode, no sample factors involved.) -/
+theorem add_discard_unreachable (cfg : Cfg) (hm : cfg.mode ≠ .quota) (items : List Item) (budget : Int) (ds : List Nat)
+    (h : ∀ it ∈ items, 1 ≤ it.size) :
+    dropped items = [] ∧ ∀ e ∈ evs (runBucket cfg items budget ds), e.isMax = false := by
+  have hd : dropped items = [] := by
+    simp only [dropped, List.filter_eq_nil_iff, decide_eq_true_eq]
+    intro it hit; have := h it hit; omega
+  refine ⟨hd, ?_⟩
+  intro e he
+  simp only [runBucket, hd, List.map_nil, List.nil_append] at he
+  split at he
+  · simp at he
+  · refine run_all (fun e => e.isMax = false) cfg (fun it => rfl) ?_ fuel0 _ ds e he
+    intro g ds' e' he'
+    unfold leaf at he'
+    split at he'
+    · rename_i hq; exact absurd hq hm
+    · exact sampleRows_notMax cfg g ds' e' he'
+
+/-- non-vacuity of the size models: an empty key with a plain counter is estimated at 12 + 8 = 20 bytes on the agent
+    and 72 + 52 + 4 = 128 bytes on the aggregator -/
+example : keyTLSize [] [] false + itemTLSize {} [] = 20 ∧ itemRowSize [] {} [] = 128 := by decide
+
+
 end SH.Sampler
